@@ -141,6 +141,23 @@ def clause2_who(ctx, P):
             return b is not None and Q.is_call_to(b, "cJSON_GetObjectItem") and b[2][1] == ("str", key)
         ctx.ob("C08.2 R-PAIR", auth, "credentials_ok:args", member(t0, "user") and member(t1, "password"),
                "credentials_ok is not called with (params.user, params.password): %s, %s" % (fmt_term(t0), fmt_term(t1)))
+    # a failed authentication changes nothing: no store to a field of the peer on any path that answers with an error
+    bad = None
+    nerr = 0
+    for v in Q.path_views(ctx, P, auth):
+        rt = Q.ret_value_term(v)
+        if rt is None or not Q.is_call_to(rt, ("create_error_response_from_request", "create_error_response")):
+            continue
+        nerr += 1
+        for _, i in v.insts():
+            if i.op == "store":
+                t = P.term(auth, i.a[1])
+                if t[0] == "field" and t[2] == "struct.peer" and t[1][0] == "param":
+                    bad = (v, t[3], i)
+    ctx.ob("C08.2 R-COMMIT", auth, "error-changes-nothing", bad is None and nerr >= 5,
+           "authenticate answers with an error on a path that has already written peer.%s (at %s): a failed authentication "
+           "must change nothing" % (bad[1], bad[2].loc) if bad else "no peer field is written on any of the %d error paths" % nerr,
+           witness=bad[0].witness() if bad else None)
     ctx.floor("C08.2 R-GATE", 3)
     ctx.floor("C08.2 R-PAIR", 4)
 
